@@ -639,6 +639,7 @@ func (s *Sched) Loop() {
 		i := s.choose(opts)
 		o := opts[i]
 		s.step++
+		runner.Tick()
 		if len(opts) > 1 && s.Record {
 			s.pendingRec = len(s.Recorded)
 			s.Recorded = append(s.Recorded, o.name)
